@@ -20,10 +20,10 @@ REPLAY = ("replay_drivers.C11", "replay")
 FACETS = ["step", "growth-clock", "invariant", "exit", "loop", "init", "rules"]
 
 
-def _report(c, cond, label, sig=None):
+def _report(c, cond, label, sig=None, kind="volume"):
     ok = c.prove(cond, label, info={"sig": sig or label, "what": label})
     if ok is False:
-        c.failures[-1]["replay"] = {"kind": "volume"}
+        c.failures[-1]["replay"] = {"kind": kind}
     return ok
 
 
@@ -56,29 +56,29 @@ def kernel_job(interp, c, case):
         noise = c.real("noise", lo=0)
         v = T.ns["StochasticTimeThresholdVolume"](cyc, Vd, noise)
         g = Fraction("0.69314718056") / cyc
-        _report(c, v.growth_rate == g, "growth rate is ln2 / cell-cycle time (volume doubles once per cycle)")
+        _report(c, v.growth_rate == g, "growth rate is ln2 / cell-cycle time (volume doubles once per cycle)", kind="sttv")
         d1 = v.get_volume_step(ptr(interp, st), ptr(interp, pv), t, V, dt)
         V1 = V + d1
         _report(c, s_and(V1 == V * s_exp(g * dt), V1 > 0, V1 >= V),
-                "one volume step multiplies the volume by exp(g*dt): positive and non-decreasing")
+                "one volume step multiplies the volume by exp(g*dt): positive and non-decreasing", kind="sttv")
         d2 = v.get_volume_step(ptr(interp, st), ptr(interp, pv), t + dt, V1, dt)
-        _report(c, V1 + d2 == V * s_exp(g * dt) * s_exp(g * dt), "k steps give V0*exp(g*dt)^k  (k = 2)")
-        _report(c, v.get_volume_step(ptr(interp, st), ptr(interp, pv), t, V, 0) == 0, "a zero-length step does not change the volume")
+        _report(c, V1 + d2 == V * s_exp(g * dt) * s_exp(g * dt), "k steps give V0*exp(g*dt)^k  (k = 2)", kind="sttv")
+        _report(c, v.get_volume_step(ptr(interp, st), ptr(interp, pv), t, V, 0) == 0, "a zero-length step does not change the volume", kind="sttv")
         td = c.real("tdiv")
         v.division_time = td
         dv = v.cell_divided(ptr(interp, st), ptr(interp, pv), t, V, dt)
         c.assume(s_not(td == t - dt))
         _report(c, (dv == 1) == s_and(td > t - dt, td <= t), "cell_divided reports division exactly for the step (t-dt, t] "
-                                                           "containing the sampled division time")
+                                                           "containing the sampled division time", kind="sttv")
         c.draws.clear()
         v.initialize(ptr(interp, st), ptr(interp, pv), t, V)
         u, w = c.draws
         nrm = s_sqrt(-2 * s_log(u)) * s_cos(2 * Fraction("3.141592653589793238462643383279502884") * w) * noise + 1
         _report(c, s_and(v.get_volume() == V, v.division_time == t + nrm * (s_log(Vd / V) / g)),
-                "initialize samples the division time as t + Normal(1, noise) * ln(Vdiv/V)/g and records the volume")
+                "initialize samples the division time as t + Normal(1, noise) * ln(Vdiv/V)/g and records the volume", kind="sttv")
         k = v.copy()
         _report(c, s_and(k.division_time == v.division_time, k.get_volume() == V, k.growth_rate == g) and k is not v,
-                "copy keeps the sampled division time, the volume and the growth rate")
+                "copy keeps the sampled division time, the volume and the growth rate", kind="sttv")
     elif which == "base":
         v = T.ns["Volume"]()
         v.py_set_volume(V)
